@@ -157,7 +157,7 @@ def check(ctx):
     trace_srv = ctx.path("trace-srv.ndjson")
     nrand = 75 if quick else 600
     si = drive(binp, ["server", "--adlt", adlt, "--work", ctx.work, "--scenarios", sscn, "--random", str(nrand), "--seed", str(ctx.seed),
-                      "--out", trace_srv, "--conns", "10", "--logs", "4" if quick else "8", "--throttles", "32:2,8:4,2:3", "--big", "70000", "--extremes", "--sorted", "--fat", "40000"] + ([] if quick else ["--all-stalls"]) + [ "--max-n", "1500" if quick else "6000"])
+                      "--out", trace_srv, "--conns", "10", "--logs", "4" if quick else "8", "--throttles", "32:2,8:4,2:3", "--big", "70000", "--bigsearch", "300000", "--extremes", "--sorted", "--fat", "40000"] + ([] if quick else ["--all-stalls"]) + [ "--max-n", "1500" if quick else "6000"])
     sw = c.kf_switches("C16", KFS)
     vs = c.validate_trace(ctx, "srv", "StreamTrace.tla", trace_srv, sw, timeout=3000, xmx="8g")
     ctx.add_tlc("trace-validation-server", vs.res)
@@ -305,3 +305,6 @@ def check(ctx):
     ctx.assumptions = ["TLC and CommunityModules are correct", "the driver's projection (frame decoding with the repo's own bincode types, "
                        "field extraction, 31-bit text hash) is correct", "websocket frames are received in the order the server wrote them",
                        "the generated logs have one lifecycle per ECU with reception time = start + timestamp (no time sorting needed)"]
+
+# round 6 (DESIGN.md 11.10)
+META["technique"] += ' Searches on a periodic log of 300 000 messages (pages filled only far into the stream or never) are recorded as page summaries and decided by the periodic count of OkSearchSum.'
